@@ -53,7 +53,7 @@ func (i *IRCServer) cmdServerJoin(s *Session, reply *Replyctx, msg *irc.Message)
 		}
 		session.Channels[ChanToLower(channelname)] = true
 
-		i.sendCommonChannels(session, reply, &irc.Message{
+		i.sendChannel(c, reply, &irc.Message{
 			Prefix:  servicesPrefix(msg.Prefix),
 			Command: irc.JOIN,
 			Params:  []string{channelname},
